@@ -87,6 +87,159 @@ class Types:
       return r[1]
     return None
 
+  # -- module-level namedtuple types: fields, annotated parameters, construction sites ---------------------
+  def nt_fields(self, name):
+    for m in self.repo.modules.values():
+      v = m.assigns.get(name)
+      if isinstance(v, ast.Call) and norm(v.func).endswith('namedtuple') and len(v.args) == 2:
+        flds = v.args[1]
+        if isinstance(flds, (ast.List, ast.Tuple)) and all(isinstance(x, ast.Constant) for x in flds.elts):
+          return [x.value for x in flds.elts]
+        if isinstance(flds, ast.Constant) and isinstance(flds.value, str):
+          return flds.value.replace(',', ' ').split()
+    return None
+
+  def nt_param(self, f, expr, at=None):
+    """Name of the namedtuple type a parameter (never re-bound before `at`) is annotated with, or None."""
+    if not isinstance(expr, ast.Name):
+      return None
+    ctx = FuncCtx.of(f)
+    for a in f.node.args.posonlyargs + f.node.args.args + f.node.args.kwonlyargs:
+      if a.arg == expr.id and a.annotation is not None:
+        if at is not None and not all(d.how == 'param' for d in ctx.rd.defs_at(at, expr.id)):
+          return None
+        ann = a.annotation
+        if isinstance(ann, ast.Constant) and isinstance(ann.value, str):
+          try:
+            ann = ast.parse(ann.value, mode='eval').body
+          except SyntaxError:
+            return None
+        d = dotted(ann)
+        if d is not None and self.nt_fields(d.split('.')[-1]) is not None:
+          return d.split('.')[-1]
+    return None
+
+  def nt_sites(self, name):
+    """[(function, call, cfg node)] of every construction `name(...)` in the package."""
+    cache = self.__dict__.setdefault('_nt_sites', {})
+    if name not in cache:
+      out = []
+      work = list(self.repo.functions.values())
+      while work:
+        g = work.pop()
+        work.extend(g.nested.values())
+        ctx = FuncCtx.of(g)
+        for n in ctx.g.nodes:
+          for e in ctx.node_exprs(n):
+            for sub in walk_no_nested(e):
+              if isinstance(sub, ast.Call) and (norm(sub.func) == name or norm(sub.func).endswith('.' + name)):
+                out.append((g, sub, n))
+      cache[name] = out
+    return cache[name]
+
+  def nt_value(self, f, expr, at=None, depth=6):
+    """(type name, [(function, construction call, cfg node)]) when `expr` is a value of a module-level namedtuple type
+    all of whose possible construction sites are visible: a construction, a call of / iteration over a package function
+    returning / yielding constructions, a local bound to one of these, a parameter annotated with the type."""
+    if depth <= 0 or expr is None:
+      return None
+    ctx = FuncCtx.of(f)
+    at = at or ctx.node_at(expr)
+    if isinstance(expr, ast.Call):
+      last = norm(expr.func).split('.')[-1]
+      if self.nt_fields(last) is not None:
+        return (last, [(f, expr, at)])
+      t = self.callee(f, expr, at, depth - 1)
+      if t and t[0] == 'func':
+        return self._nt_merge([self.nt_value(t[1], s_.value, None, depth - 1) for s_ in walk_no_nested(t[1].node)
+                               if isinstance(s_, ast.Return) and s_.value is not None])
+      return None
+    if isinstance(expr, ast.Name):
+      nt = self.nt_param(f, expr, at)
+      if nt is not None:
+        return (nt, self.nt_sites(nt))
+      if at is None:
+        return None
+      vals = []
+      for d in ctx.rd.defs_at(at, expr.id):
+        if d.how == 'assign' and d.value is not None:
+          vals.append(self.nt_value(f, d.value, d.node, depth - 1))
+        elif d.how == 'iter' and isinstance(d.value, ast.Call):
+          t = self.callee(f, d.value, d.node, depth - 1)
+          if t and t[0] == 'func':
+            ys = [s_ for s_ in walk_no_nested(t[1].node) if isinstance(s_, (ast.Yield, ast.YieldFrom))]
+            if not ys or any(isinstance(y, ast.YieldFrom) or y.value is None for y in ys):
+              return None
+            vals.append(self._nt_merge([self.nt_value(t[1], y.value, None, depth - 1) for y in ys]))
+          else:
+            return None
+        else:
+          return None
+      return self._nt_merge(vals)
+    return None
+
+  @staticmethod
+  def _nt_merge(vals):
+    if not vals or any(v is None for v in vals) or len({v[0] for v in vals}) != 1:
+      return None
+    return (vals[0][0], [x for v in vals for x in v[1]])
+
+  def nt_attr_args(self, f, expr, at=None, depth=6):
+    """[(function, argument expr, cfg node)]: every expression the field read `expr` (an Attribute) can denote."""
+    if not isinstance(expr, ast.Attribute):
+      return None
+    v = self.nt_value(f, expr.value, at, depth)
+    if v is None:
+      return None
+    name, sites = v
+    flds = self.nt_fields(name)
+    if flds is None or expr.attr not in flds or not sites:
+      return None
+    i = flds.index(expr.attr)
+    out = []
+    for g, call, n in sites:
+      if any(isinstance(a, ast.Starred) for a in call.args) or any(k.arg is None for k in call.keywords):
+        return None
+      a = call.args[i] if i < len(call.args) else next((k.value for k in call.keywords if k.arg == expr.attr), None)
+      if a is None:
+        return None
+      out.append((g, a, n))
+    if self._nt_replaced(expr.attr):
+      return None
+    return out
+
+  def _nt_replaced(self, field):
+    cache = self.__dict__.setdefault('_nt_repl', None)
+    if cache is None:
+      cache = self.__dict__['_nt_repl'] = set()
+      for g_ in list(self.repo.functions.values()):
+        for sub in ast.walk(g_.node):
+          if isinstance(sub, ast.Call) and isinstance(sub.func, ast.Attribute) and sub.func.attr == '_replace':
+            for k in sub.keywords:
+              cache.add(k.arg)
+    return field in cache or None in cache
+
+  def nt_field_args(self, name, field):
+    """[(function, argument expr, cfg node)] passed for `field` at every construction site; None when one site is not followed."""
+    flds = self.nt_fields(name)
+    if flds is None or field not in flds:
+      return None
+    i = flds.index(field)
+    out = []
+    for g, call, n in self.nt_sites(name):
+      if any(isinstance(a, ast.Starred) for a in call.args) or any(k.arg is None for k in call.keywords):
+        return None
+      a = call.args[i] if i < len(call.args) else next((k.value for k in call.keywords if k.arg == field), None)
+      if a is None:
+        return None
+      out.append((g, a, n))
+    # obj._replace(field=...) anywhere re-binds the field
+    for g_ in list(self.repo.functions.values()):
+      for sub in ast.walk(g_.node):
+        if isinstance(sub, ast.Call) and isinstance(sub.func, ast.Attribute) and sub.func.attr == '_replace' and any(k.arg == field or k.arg is None for k in sub.keywords):
+          return None
+    return out or None
+
   def self_class(self, f):
     top = f
     while top.outer is not None:
@@ -134,6 +287,11 @@ class Types:
     if isinstance(expr, ast.Attribute):
       base = self.type_of(f, expr.value, at, depth - 1)
       if base is None:
+        args = self.nt_attr_args(f, expr, at, depth - 1)
+        if args:
+          cs = {self.type_of(g, a, n, depth - 1) for g, a, n in args}
+          if len(cs) == 1:
+            return cs.pop()
         return None
       if expr.attr in base.getters:
         g = base.getters[expr.attr]
@@ -176,6 +334,14 @@ class Types:
       r = self.repo.resolve_dotted(f.module, fn.id)
       if r and r[0] in ('class', 'func'):
         return r
+      # a local bound once to a bound method / function: share = self.data.aggregate_geo_share; share(geos)
+      ctx = FuncCtx.of(f)
+      at = at or ctx.node_at(call)
+      if at is not None and depth > 0 and fn.id not in f.params:
+        d = ctx.rd.single_def(at, fn.id)
+        if d is not None and d.how == 'assign' and isinstance(d.value, (ast.Attribute, ast.Name)) and norm(d.value) != fn.id:
+          alias = ast.copy_location(ast.Call(func=d.value, args=call.args, keywords=call.keywords), call)
+          return self.callee(f, alias, d.node, depth - 1)
       return ('lib', fn.id)
     if isinstance(fn, ast.Attribute):
       d = dotted(fn)
